@@ -33,3 +33,7 @@ func verifPar(f, g func()) {
 func verifParam(name string) int
 func verifIteStr(c bool, a, b string) string
 func verifBackground(f func())
+func verifEvent(kind string, a, b, c int)
+func verifNodeOutcome(a, b int) int
+func verifCtxErrSet() bool
+func verifCtxDoneChan(c chan struct{})
